@@ -45,6 +45,7 @@ func translate(pkgPatterns []string, outRootDir string, modDir string,
 	}
 
 	someError := false
+	written := make(map[string]string)
 	for i, f := range fs {
 		err := errs[i]
 		if err != nil {
@@ -56,6 +57,14 @@ func translate(pkgPatterns []string, outRootDir string, modDir string,
 		}
 		outFile := path.Join(outRootDir,
 			coq.ImportToPath(f.PkgPath, f.GoPackage))
+		if other, ok := written[outFile]; ok && other != f.PkgPath {
+			// '.', '-' and '_' all map to '_'
+			fmt.Fprintln(os.Stderr, red(fmt.Sprintf("packages %s and %s are both written to %s",
+				other, f.PkgPath, outFile)))
+			someError = true
+			continue
+		}
+		written[outFile] = f.PkgPath
 		outDir := path.Dir(outFile)
 		err = os.MkdirAll(outDir, 0777)
 		if err != nil {
@@ -66,7 +75,8 @@ func translate(pkgPatterns []string, outRootDir string, modDir string,
 		if err != nil {
 			fmt.Fprintln(os.Stderr, err.Error())
 			fmt.Fprintln(os.Stderr, red("could not write output"))
-			os.Exit(1)
+			// the remaining packages are still written and reported
+			someError = true
 		}
 	}
 	if someError {
